@@ -144,7 +144,9 @@ Fixpoint put_lids (m : list (N * list nat)) (t : N) (g : list nat) : list (N * l
   | [] => [(t, g)]
   | (k, q) :: r => if N.eqb t k then (k, q ++ g) :: r else (k, q) :: put_lids r t g
   end.
-(* TokenList.Append + PutLIDsInQueue for every token of the bulk *)
+(* TokenList.Append + PutLIDsInQueue for every token of the bulk. (addLIDsToTokens queues the
+   all-token last; the order between different tokens is invisible once the bulk is indexed:
+   ProofsHist.add_groups_lookup.) *)
 Fixpoint add_groups (m : list (N * list nat)) (tv : list N) (gs : list (list nat)) : list (N * list nat) :=
   match tv, gs with
   | t :: tr, g :: gr => add_groups (put_lids m t g) tr gr
